@@ -59,8 +59,7 @@ def sizes_for(ctx, rq, rs):
 
 
 def split_frames(rng, data_segs, total, how):
-    """cut the message (as bytes, only for moderate sizes) into body frames"""
-    b = L.segs_bytes(data_segs)
+    """cut the message into body frames (kept in the compact segs form, never expanded)"""
     if isinstance(how, list):
         cuts = sorted(set(c for c in how if 0 < c < total))
     elif how == "one" or total < 2:
@@ -73,11 +72,7 @@ def split_frames(rng, data_segs, total, how):
         cuts = sorted(set(rng.randint(1, total - 1) for _ in range(6)))
     else:  # "last1"
         cuts = [total - 1]
-    parts, prev = [], 0
-    for c in cuts + [total]:
-        parts.append(b[prev:c])
-        prev = c
-    return [p.hex() if p else "-" for p in parts]
+    return L.segs_split(data_segs, cuts)
 
 
 def gen_cases(ctx, eps_ws=L.EPS_WS, eps_http=L.EPS_HTTP, pairs=None):
@@ -104,10 +99,10 @@ def gen_cases(ctx, eps_ws=L.EPS_WS, eps_http=L.EPS_HTTP, pairs=None):
                 if rng.random() < 0.4:
                     m2, k2, p2 = L.small_call(nid())
                     msgs.append(m2)
-                    meta.append({"size": len(L.segs_bytes(m2)), "kind": k2, "plen": p2})
+                    meta.append({"size": L.segs_len(m2), "kind": k2, "plen": p2})
             m2, k2, p2 = L.small_call(nid())
             msgs.append(m2)
-            meta.append({"size": len(L.segs_bytes(m2)), "kind": k2, "plen": p2})
+            meta.append({"size": L.segs_len(m2), "kind": k2, "plen": p2})
             cases.append({"ep": ep, "t": "ws", "rq": rq, "rs": rs, "msgs": msgs, "_meta": meta})
         # ---- HTTP
         for ep in eps_http:
@@ -132,9 +127,9 @@ def gen_cases(ctx, eps_ws=L.EPS_WS, eps_http=L.EPS_HTTP, pairs=None):
                                       "_meta": [{"size": sz, "kind": kind, "plen": plen}]})
         # ---- HTTP bodies with leading whitespace (1..127 bytes, inside the sniff window): the limit counts every byte
         #      of the body, also when no Content-Length announces it and whatever the frame boundaries are
-        if rq >= 4:
+        if 4 <= rq <= 70000:
             big = ctx.thorough or ctx.search_mode
-            leads = [1, 2, 17, 64, 126, 127] + [rng.randint(1, 127) for _ in range(3)] if big else [1, 127, rng.randint(2, 126)]
+            leads = [1, 127, rng.randint(2, 126), rng.choice([2, 17, 64, 126])] if big else [1, 127, rng.randint(2, 126)]
             for ep in eps_http:
                 tcp = ep not in L.HTTP_SOCKET_FREE
                 for lead in leads:
@@ -145,7 +140,7 @@ def gen_cases(ctx, eps_ws=L.EPS_WS, eps_http=L.EPS_HTTP, pairs=None):
                     for total in totals:
                         m, kind, plen = L.sized_message(nid(), total, lead, rng.choice([b" ", b"\n", b"\t", b"\r"]))
                         if tcp:
-                            hows = [("one", "one"), ("wsfirst", [lead])] if big else [("one", "one")]
+                            hows = [("one", "one")]
                         elif total > 100_000:
                             hows = [("one", "one"), ("wsfirst", [lead])]
                         else:
@@ -154,7 +149,7 @@ def gen_cases(ctx, eps_ws=L.EPS_WS, eps_http=L.EPS_HTTP, pairs=None):
                                 hows.append(("after", [lead + 1]))
                         for _name, how in hows:
                             frames = split_frames(rng, m, total, how)
-                            for cl in ([None] if tcp and not big else [None, total]):
+                            for cl in ([None] if tcp else [None, total]):
                                 cases.append({"ep": ep, "t": "http", "rq": rq, "rs": rs, "frames": frames, "cl": cl,
                                               "_meta": [{"size": total, "kind": kind, "plen": plen, "lead": lead}]})
             # the same on WebSocket: soketto counts the whole frame payload
@@ -169,7 +164,7 @@ def gen_cases(ctx, eps_ws=L.EPS_WS, eps_http=L.EPS_HTTP, pairs=None):
                         meta.append({"size": total, "kind": kind, "plen": plen, "lead": lead})
                 m2, k2, p2 = L.small_call(nid())
                 msgs.append(m2)
-                meta.append({"size": len(L.segs_bytes(m2)), "kind": k2, "plen": p2})
+                meta.append({"size": L.segs_len(m2), "kind": k2, "plen": p2})
                 cases.append({"ep": ep, "t": "ws", "rq": rq, "rs": rs, "msgs": msgs, "_meta": meta})
     return cases
 
@@ -186,7 +181,7 @@ def label(c):
 def model_line(c):
     if c["t"] == "ws":
         return "ws %s %d %d %s" % (c["ep"], c["rq"], c["rs"], ",".join(str(m["size"]) for m in c["_meta"]))
-    fr = ",".join(str(len(L.segs_bytes(f))) for f in c["frames"])
+    fr = ",".join(str(L.segs_len(f)) for f in c["frames"])
     return "http %s %d %d %s %s" % (model_ep(c), c["rq"], c["rs"], "-" if c["cl"] is None else c["cl"], fr)
 
 
